@@ -685,3 +685,47 @@ def check_C14(tier, seed):
     return finish(res, lean, "proof", search, _sig,
                   assumptions=["THAT FASTHASH WITH SEEDS 0..d-1 BEHAVES LIKE INDEPENDENT UNIFORM HASH FUNCTIONS IS AN ASSUMPTION (statistical; searched, not proved)",
                                "proved: the ideal-hash counting bound C14_ideal ((N-w_x)/(W·T))^d, its transfer through C01's upper bound; checked exactly: column = fasthash64(key,row) % width"])
+
+
+# =============================================================================== C08 C19 parallel_add
+
+
+def _parallel(pid, tier, seed, rule, assumptions):
+    import slice_parallel
+
+    res = Result(pid, tier, seed)
+    res.rule = rule
+    lean = lean_check(pid)
+    rng = rng_for(seed, pid)
+    slice_parallel.run_slice(res, rng, tier, pid)
+    if tier != QUICK:
+        slice_parallel.spawned_runs(res, rng, pid)
+    _only(res, pid)
+
+    def search():
+        r2 = Result(pid, tier, seed)
+        slice_parallel.run_slice(r2, rng_for(seed, pid + "/search"), "thorough", pid)
+        _only(r2, pid)
+        return r2.oracle_failures
+
+    return finish(res, lean, "proof", search, _sig, assumptions=assumptions)
+
+
+def check_C08(tier, seed):
+    return _parallel("C08", tier, seed,
+                     "the REAL parallel_add/_fill_queue/_worker/parallel_merging/_merge_worker in-process under a synchronous process context with real shared-memory sketches: ALL assignments of "
+                     "≤ 3 (thorough 5) items to ≤ 3 (4) workers, random valid protocol traces with 1-9 workers (odd counts → carried sketch), all 7 combinations of cms/hh/hll, list and generator "
+                     "input, parallel_merging alone for 1..9 sketches with the merge pairs recorded; oracles: HyperLogLog registers = sequential, n_added = total multiplicity, n_records = Σ returns, "
+                     "C01/C03/C04 of the result w.r.t. the whole stream; model: each schedule is validated as a run of the Lean protocol (par.run), the count-min result equals the Lean model of the "
+                     "same schedule and merge rounds. Thorough adds real spawned runs (1,2,3,5 workers).",
+                     ["the OS scheduler, spawn, pickling and shared-memory coherence are runtime behaviour; the model assumes the queue's FIFO / exactly-once delivery",
+                      "under the synchronous context items are delivered according to the schedule's per-worker assignment (workers interact only through the queue)"])
+
+
+def check_C19(tier, seed):
+    return _parallel("C19", tier, seed,
+                     "in-process as C08: all assignments with random raise-before/raise-after marks, EVERY subset of 3 (thorough 5) items marked to raise × 1..3 workers × random valid traces, a worker "
+                     "dying (BaseException, exit code 3) on its k-th item for k = 0..2 × 1..3 workers (parallel_add must end with an exception), the monitor loop driven by scripted exit-code "
+                     "snapshots compared with the Lean `monitor`; thorough adds a real spawned run in which a worker calls os._exit(3) and a wall-clock bound.",
+                     ["process death, signals and the fact that the exception stems from using a closed multiprocessing queue are runtime behaviour (modelled by the fake queue raising ValueError)",
+                      "a worker that dies with exit code 0 is outside the property's fault model"])
